@@ -183,8 +183,13 @@ class Sym:
         if self.depth >= self.max_depth:
             raise Unsupported(f'inlining depth exceeded at {f["id"]}')
         key = None
-        if not self.recursion_guard and self.summarise_recursion and \
-                any(env.get('__fn__') == f['id'] for env in st.envs):
+        same_fn = [env for env in st.envs if env.get('__fn__') == f['id']]
+        if same_fn and not f.get('params') and f['id'].endswith(' const') and this is not None and len(same_fn) < 4 \
+                and all(env.get('this') != this for env in same_fn):
+            # a parameterless const accessor met again on another object (an accessor that delegates to the same accessor of a
+            # constant or of a sub-object) is not a recursion on the request being evaluated: it is evaluated
+            same_fn = []
+        if not self.recursion_guard and self.summarise_recursion and same_fn:
             # a function re-entered while it is being evaluated is summarised by a term naming the inner
             # request (its result is whatever that request yields)
             st.effects.append(('reentry', f['id'], this, tuple(args)))
